@@ -6,6 +6,7 @@ import TnVerif.Model.Format
 import TnVerif.Model.Index
 import TnVerif.Model.Assign
 import TnVerif.Model.Tools
+import TnVerif.Model.Deriv
 /-
   Line-protocol driver (DESIGN §2.6).  One request per line on stdin, one answer per line on
   stdout.  Tokens are separated by blanks; numbers are integers or `p/q`.
@@ -253,6 +254,9 @@ def run (cmd : String) : PM String := do
           maps := maps.push (some (r, arr2 a r c))
       let t ← pTensor
       return "ok " ++ showTensor (t.ttm maps.toList)
+  | "partial" => do
+      let d ← pNat; let order ← pNat; let c ← pQ; let per ← pNat; let t ← pTensor
+      return "ok " ++ showTensor ((t.partialN d c (per != 0) order).memo)
   | _ => throw s!"unknown command {cmd}"
 
 def handle (line : String) : String :=
